@@ -331,7 +331,7 @@ KEYNAMES = ("keys", "key_data", "k1", "k2")
 LENNAMES = ("len", "len_bytes", "N")
 
 
-def run_body(lib, f, sig, nr, L, pb=0, pboff=None, aad_len=20, ctx_tag="context_data", carried_done=None):
+def run_body(lib, f, sig, nr, L, pb=0, pboff=None, aad_len=20, ctx_tag="context_data", carried_done=None, cls=None):
     entry = {}
     sargs = {}
     names = []
@@ -355,7 +355,7 @@ def run_body(lib, f, sig, nr, L, pb=0, pboff=None, aad_len=20, ctx_tag="context_
         return None
     keytags = [n for n in names if n in KEYNAMES]
     iv = "iv" if "iv" in names else ("initial_tweak" if "initial_tweak" in names else None)
-    m = AesMachine(lib, f, entry, nr, keytags, in_tag="in", out_tag="out", iv_tag=iv, mem_hook=hook, carried_done=carried_done)
+    m = (cls or AesMachine)(lib, f, entry, nr, keytags, in_tag="in", out_tag="out", iv_tag=iv, mem_hook=hook, carried_done=carried_done)
     m.result = m.run()
     return m
 
